@@ -1447,6 +1447,7 @@ def _fix_undelimited_seq(
     if (delim is True
         or (
             delim is None
+            and not any(e.__class__ is Slice for e in body)  # a Tuple containing Slices is only valid unparenthesized in a Subscript.slice, parentheses can not make it parsable, only break it
             and (
                 not (
                     end_ln == ln
